@@ -121,6 +121,12 @@ def stepItem (s : MSt) : TItem → MSt
     | none => { s1 with fails := s1.fails ++ [s!"result for unknown operation {o}"] }
     | some t =>
       let s2 := if admits t k then s1 else { s1 with fails := s1.fails ++ [s!"operation {o} completed with a kind outside the set of its API"] }
+      -- `other` covers decode errors and argument errors; an internal look-up error is never a documented result
+      let internal := match r with
+        | .fail (.other cls) => cls == "KeyError" || cls == "IndexError"
+        | .failedPayloads _ fl => fl.any (fun f => match f.2 with | .other cls => cls == "KeyError" || cls == "IndexError" | _ => false)
+        | _ => false
+      let s2 := if internal then { s2 with fails := s2.fails ++ [s!"operation {o} surfaced an internal error of the client"] } else s2
       if s.cancelling == some o && !cancelAdmits t k then
         { s2 with fails := s2.fails ++ [s!"operation {o}: cancel outcome is not in the documented table"] }
       else s2
